@@ -788,6 +788,24 @@ def sorter_split(facts, res):
             if (a - b).subs(dict(zip(syms, vals))) != 0:
                 return False
         return True
+    # the EFFECTIVE block size: the requested one, possibly clamped to the number of leaves (a request larger than everything there is means
+    # "one group"; clamping keeps the sums and products below from overflowing).  Accepted iff 1 <= S' <= S, S' = S whenever S <= leaves, and
+    # S' >= leaves otherwise - then splitting by S' makes the very same groups as splitting by S
+    S_req = S
+    try:
+        X = sympy.simplify(first / g)
+    except Exception:
+        X = None
+    if X is not None and g not in X.free_symbols and X != S and X.free_symbols <= {S, N}:
+        ok_eff = True
+        for sv in (1, 2, 3, 5, 8, 13, 10 ** 12):
+            for nv in (1, 2, 3, 5, 8, 13, 40):
+                xv = X.subs({S: sv, N: nv})
+                if not (1 <= xv <= sv and (xv == sv if sv <= nv else xv >= nv)):
+                    ok_eff = False
+        if ok_eff:
+            res.instance(R3, "sorter split: effective block size", facts.loc(fn), "%s (the request clamped to the number of leaves: same groups, no overflow)" % X)
+            S = X
     want_count = sympy.floor((N + S - 1) / S)
     if not same(count, want_count):
         res.violation(R3, tbf.rel(facts.path_of(loops[0])), fn["qname"], "split-count", loops[0]["l"][1], "the number of particle groups is `%s`, not ceil(leaves / block size) = `%s`: the last leaves are in no group, or an empty group is made" % (count, want_count))
